@@ -1,5 +1,10 @@
 package harness
 
-import "sort"
+import (
+	"sort"
+	"time"
+)
 
 func sortInt64(s []int64) { sort.Slice(s, func(i, j int) bool { return s[i] < s[j] }) }
+
+func minutes(n int) time.Duration { return time.Duration(n) * time.Minute }
